@@ -71,6 +71,7 @@ def run_property(mod, tier, seed, only=None):
     core.ACTIVE_KNOWN.clear()
     core.ACTIVE_KNOWN.update(k['id'] for k in known if k.get('status') == 'known')
     specs = mod.harnesses(tier)
+    core.XCHECK_EVERY = int(os.environ.get('SYMX_XCHECK', '200' if tier == 'thorough' else '0'))
     if only:
         specs = [s for s in specs if s['name'] in only]
     total = Stats()
@@ -95,6 +96,8 @@ def run_property(mod, tier, seed, only=None):
         wall = time.time() - t0
         if st.errors:
             engine_errors.append(f"{sp['name']}: {st.errors} paths ended in a harness/engine error, e.g. {st.error_msgs[:1]}")
+        if st.counters.get('xcheck_disagree') or st.counters.get('xcheck_error'):
+            engine_errors.append(f"{sp['name']}: second solver disagreed or reported an error: {st.counters}")
         if st.reached == 0:
             engine_errors.append(f"{sp['name']}: vacuous - no path reached an assertion")
         if not exhausted or st.inconclusive:
